@@ -69,9 +69,56 @@ def check(ctx):
     ctx.decide(const(d) == 0.14 and const(d2) == 960, "C13-R4", fn, SP, "shrake_rupley", "defaults probe 0.14 nm, 960 points", "", "defaults are %s / %s" % (const(d), const(d2)))
     # accumulation into groups
     sf = cf.function(SC, "sasa")
-    acc = [n for n in C.walk(sf) if n["kind"] == "CompoundAssignOperator" and n.get("opcode") == "+=" and C.root_var(C.kids(n)[0])[0] == "outframe"]
-    ok = bool(acc) and re.sub(r"\s", "", C.text(acc[0])) == "(outframe[atom_mapping[j]]+=outframebuffer[j])"
-    ctx.decide(ok, "C13-R4", C.line(acc[0]) if acc else C.line(sf), SC, "sasa", "group area += atom area", "", "group accumulation is %s" % (C.text(acc[0]) if acc else None))
+    # by role, not by name: the per-atom buffer is what asa_frame fills (its last argument); the row of the output is out + n_groups * frame;
+    # the accumulation is row[atom_mapping[j]] += buffer[j] with one j
+    sp = C.fparams(sf)
+    if len(sp) != 9:
+        raise AnalysisError("sasa(): %d parameters (9 expected)" % len(sp))
+    p_map, p_ngroups, p_out = sp[5].get("id"), sp[7].get("id"), sp[8].get("id")
+    calls_af = list({(C.line(n), C.text(n)): n for n in C.walk(sf) if n["kind"] == "CallExpr" and C.callee_name(n) == "asa_frame"}.values())   # (an OpenMP region lists its body twice)
+    buf_id = C.ref_id(C.call_args(calls_af[0])[-1]) if len(calls_af) == 1 and C.call_args(calls_af[0]) else None
+    frame_loops = [n for n in C.walk(sf) if n["kind"] == "ForStmt" and any(x is calls_af[0] for x in C.walk(n))] if len(calls_af) == 1 else []
+    frame_var = None
+    if frame_loops:
+        init = [x for x in frame_loops[-1].get("inner", []) if isinstance(x, dict) and "kind" in x][0]
+        frame_var = C.ref_id(C.kids(init)[0]) if init.get("kind") == "BinaryOperator" else next((v.get("id") for v in C.kids(init) if v["kind"] == "VarDecl"), None)
+
+    def factors(n):
+        n = C.strip(n)
+        if n.get("kind") == "BinaryOperator" and n.get("opcode") == "*":
+            return factors(C.kids(n)[0]) + factors(C.kids(n)[1])
+        return [C.ref_id(n)]
+    rows = {}       # variable id -> True when it is assigned out + n_groups * frame
+    for n in C.walk(sf):
+        tgt = val = None
+        if n["kind"] == "BinaryOperator" and n.get("opcode") == "=":
+            tgt, val = C.ref_id(C.kids(n)[0]), C.strip(C.kids(n)[1])
+        elif n["kind"] == "VarDecl" and C.kids(n):
+            tgt, val = n.get("id"), C.strip(C.kids(n)[-1])
+        if tgt is None or val is None or val.get("kind") != "BinaryOperator" or val.get("opcode") != "+":
+            continue
+        a_, b_ = C.kids(val)
+        for base, off in ((a_, b_), (b_, a_)):
+            if C.ref_id(base) == p_out and sorted(map(str, factors(off))) == sorted(map(str, [p_ngroups, frame_var])):
+                rows[tgt] = True
+    acc = []
+    for n in C.walk(sf):
+        if n["kind"] == "CompoundAssignOperator" and n.get("opcode") == "+=":
+            lhs, rhs = C.strip(C.kids(n)[0]), C.strip(C.kids(n)[1])
+            if lhs.get("kind") == "ArraySubscriptExpr" and rhs.get("kind") == "ArraySubscriptExpr":
+                lb, li = C.kids(lhs)
+                rb, ri = C.kids(rhs)
+                li = C.strip(li)
+                if C.ref_id(rb) == buf_id and li.get("kind") == "ArraySubscriptExpr" and C.ref_id(C.kids(li)[0]) == p_map:
+                    acc.append((n, rows.get(C.ref_id(lb), False), C.ref_id(C.kids(li)[1]) is not None and C.ref_id(C.kids(li)[1]) == C.ref_id(ri)))
+    # an OpenMP region lists its body twice in the AST (captured statement and original): one statement, seen twice
+    uniq = {}
+    for a_ in acc:
+        uniq.setdefault((C.line(a_[0]), C.text(a_[0])), a_)
+    acc = list(uniq.values())
+    ok = len(acc) == 1 and acc[0][1] and acc[0][2] and buf_id is not None
+    ctx.decide(ok, "C13-R4", C.line(acc[0][0]) if acc else C.line(sf), SC, "sasa", "out[frame, atom_mapping[j]] += area of atom j (the buffer asa_frame filled)", "",
+               "the group accumulation is %s" % ("not found" if not acc else "`%s` (row of the output = out + n_groups * frame: %s; same atom index on both sides: %s)" % (C.text(acc[0][0]), acc[0][1], acc[0][2])))
     # argument order across the layers
     pw = ctx.py.func(GP, "_sasa")
     pp = params(pw)
